@@ -99,3 +99,65 @@ def weakest_site(v: Value) -> str:
     return site
 
 
+
+
+def required_inner_class(prog: Program, cls: str, slot: str) -> str | None:
+    """For a slot annotated dict[K, ChangeDict[...]] the class the contained
+    containers must have (None when they are plain builtins / immutable)."""
+    import ast as _ast
+    ann = prog.slot_annotation(cls, slot)
+    if isinstance(ann, _ast.Subscript) and isinstance(ann.slice, _ast.Tuple) \
+            and len(ann.slice.elts) == 2:
+        v = ann.slice.elts[1]
+        if isinstance(v, _ast.Subscript):
+            v = v.value
+        if isinstance(v, _ast.Name) and v.id in prog.classes:
+            return v.id
+    return None
+
+
+def check_container_kinds(prog: Program, res, only=None) -> None:
+    """I5: containers stored inside a slot have the class the slot's
+    annotation names (e.g. ChangeDict, whose __missing__ the readers rely
+    on), for every derivation operation and every mutator."""
+    from .absint import Cont
+    res.rule("R-CONTAINER-KIND", "a container stored inside a slot has the "
+             "class the slot annotation names (ChangeDict for the change "
+             "dictionaries: reactant()/product()/hash index it with every "
+             "Change member and rely on ChangeDict.__missing__)")
+    n = 0
+    for label, K, G, thunk in operations(prog):
+        if only is not None and not only(label):
+            continue
+        I = Interp(prog)
+        out = thunk(I)
+        tag = f"{SHORT[K]}.{label}" + (f"[arg {SHORT[G]}]" if G else "")
+        targets = []
+        if isinstance(out, Obj):
+            for s, v in out.slots.items():
+                targets.append((out.cls, s, v, out.why.get(s, "")))
+        for ev in I.events:
+            if ev.kind == "rebind" and ev.vkinds:
+                cls = I.labels.get(ev.owner, K)
+                targets.append((cls, ev.slot, ev, ev.stmt))
+        for cls, s, v, why in targets:
+            try:
+                need = required_inner_class(prog, cls, s)
+            except AnalysisError:
+                need = None
+            if need is None:
+                continue
+            kinds = set(v.kinds) if isinstance(v, Cont) else set(
+                getattr(v, "vkinds", ()))
+            n += 1
+            inst = f"{tag} -> {s} holds {need}"
+            badk = {k for k in kinds if k not in (need, "<src>")}
+            if badk:
+                site = getattr(v, "why", "") or why
+                res.bad("R-CONTAINER-KIND", f"{site} => {s} {sorted(badk)}",
+                        "", f"{inst}: the result stores {sorted(badk)} "
+                        f"containers in {s} (built at `{site}`); lookups of "
+                        "an absent role then raise KeyError", instance=inst)
+            else:
+                res.ok("R-CONTAINER-KIND", inst, "")
+    res.need("R-CONTAINER-KIND", n, 4, "slot obligations")
